@@ -389,6 +389,33 @@ func (r *Real) Exec(o model.Op) (panicked bool, ret any, pmsg any) {
 		case "Merge":
 			return false, r.wrapO(ob.Merge(r.object(o.J))), nil
 		}
+	case "GetTF":
+		// GetTF and TypeOfTF must agree: Undefined exactly when GetTF panics, else the kind of the value
+		path := r.PathString(o.Vs)
+		var v any
+		var typ at.Type
+		var gp any
+		func() {
+			defer func() { gp = recover() }()
+			switch c := r.Fwd[o.R].(type) {
+			case at.List:
+				typ = c.TypeOfTF(path)
+				v = c.GetTF(path)
+			case at.Object:
+				typ = c.TypeOfTF(path)
+				v = c.GetTF(path)
+			}
+		}()
+		if gp != nil {
+			if typ != at.TypeUndefined {
+				return false, fmt.Sprintf("verif: GetTF(%q) panicked (%v) but TypeOfTF reports kind %d", path, gp, typ), nil
+			}
+			panic(gp)
+		}
+		if typ == at.TypeUndefined {
+			return false, fmt.Sprintf("verif: GetTF(%q) returned %v but TypeOfTF reports Undefined", path, v), nil
+		}
+		return false, v, nil
 	case "SetTF", "UnsetTF":
 		path := r.PathString(o.Vs)
 		switch c := r.Fwd[o.R].(type) {
